@@ -551,14 +551,17 @@ class ASTString(ASTTemplate):
             return "", ""
         grouping = ""
         if node.grouping is not None:
-            grouping_sep = ", " if len(node.grouping) > 1 else ""
+            # Components are comma separated; a time_agg(...) follows them without a comma
+            # ("group by Id_1, Id_2 time_agg(...)").
             grouping_values = []
+            time_aggs = []
             for grouping_value in node.grouping:
                 if isinstance(grouping_value, TimeAggregation):
-                    grouping_values.append(self.visit(grouping_value))
+                    time_aggs.append(self.visit(grouping_value))
                 else:
                     grouping_values.append(_format_reserved_word(grouping_value.value))
-            grouping = f" {node.grouping_op} {grouping_sep.join(grouping_values)}"
+            grouping_items = " ".join([", ".join(grouping_values)] * bool(grouping_values) + time_aggs)
+            grouping = f" {node.grouping_op} {grouping_items}"
         having = f" {self.visit(node.having_clause)}" if node.having_clause is not None else ""
         return grouping, having
 
